@@ -1139,15 +1139,25 @@ def process_template(job, prebuilt=None):
         unchanged('materialize', dict(sdna=sd))
       # SECOND STAGE: a partially decoded value (placeholders left by the filter) is a search space of its own — it must behave
       # exactly like a freshly written equal value: same specification, decode / encode / iteration on the remaining space
-      if P.get('stage', 1) == 1 and left_hypers(vd) and di in ((0, len(sds) - 1) if P.get('thorough') else (0,)) and time.time() < P['deadline']:
+      run_stage2 = False
+      if P.get('stage', 1) == 1 and left_hypers(vd) and di in ((0, len(sds) - 1) if (P.get('thorough') or origin == 'corpus') else (0,)) and time.time() < P['deadline']:
         rec.oracle += 1
         oks2, sp2 = attempt(lambda: spec_of_pg(pg.dna_spec(v)))
         okf2, spf = attempt(lambda: spec_of_pg(pg.dna_spec(to_pg(vd))))
         scase = dict(dcase, op='second-stage')
-        if okf2 and (not oks2 or sp2 != spf):
+        if not okf2:
+          # the library refuses the freshly written equal value as a search space (a multi-choice that picks a NAMED nested
+          # placeholder twice leaves two separate decision points with one name): the decoded value must be refused alike
+          rec.hist('second_stage_not_a_search_space', '%s (fresh equal value refused)' % type(spf).__name__)
+          if oks2:
+            rec.hit('C13/second-stage/accepted-where-fresh-equal-value-is-refused/%s' % feat, 'decode of %s leaves %s; pg.dna_spec refuses an equal freshly written value (%s: %s) but accepts the decoded one; template %s (%s)' % (
+                dna, describe(vd), type(spf).__name__, str(spf)[:100], td, wd), scase)
+        elif not oks2 or sp2 != spf:
           rec.hit('C13/second-stage/spec-differs-from-fresh-equal-value/%s' % feat, 'decode of %s leaves %s; pg.dna_spec of that value is %s, of an equal freshly written value %s; template %s (%s)' % (
               dna, describe(vd), G.describe(sp2) if oks2 else '%s: %s' % (type(sp2).__name__, str(sp2)[:100]), G.describe(spf), td, wd), scase)
         P2 = dict(P, stage=2, limit=16, nrand=4, ncwork=0, npwork=0, nsample=0)
+        run_stage2 = okf2
+      if run_stage2:
         # a root-level manyof decodes to a plain Python list: as a search space of its own it is written as a pg.List
         v_space = pg.List(v) if isinstance(v, list) and not isinstance(v, pg.List) else v
         ok2s, rec2 = attempt(lambda: process_template((ti, 'second-stage:' + label.rstrip('?!'), vd, ['none'], seed + di, qtr, P2), prebuilt=v_space))
@@ -1291,6 +1301,10 @@ CORPUS = [
     ('corpus:docstring', None, ['none']),
     # encode followed the INPUT's key order (fixed)
     ('corpus:encode-key-order', ['D', [['a', ['1', [['L', 1], ['L', 2]], None, None]], ['b', ['1', [['L', 1], ['L', 2], ['L', 3]], None, None]], ['c', ['D', [['y', ['1', [['L', 'p'], ['L', 'q']], None, None]], ['x', ['F', 0.0, 1.0, None, None]]]]]]], ['none']),
+    # a multi-choice picking a NAMED nested placeholder twice: the partially decoded value holds two separate decision points with
+    # one name, which the library refuses as a search space (like an equal freshly written value) — second stage must expect that
+    ('corpus:named-placeholder-picked-twice', ['M', 2, [['1', [['F', 0.578125, 1.671875, 'n1', None], ['L', 1], ['l', [['L', 'xy'], ['L', False], ['L', 'xy']]], ['L', 0.5]], None, 2], ['L', 0.5], ['L', 'b']], False, False, None, None], ['ncands', 3]),
+    ('corpus:named-oneof-picked-three-times', ['M', 3, [['L', -0.25], ['L', ''], ['1', [['L', True], ['L', 'b']], 'n1', 1]], False, True, 'n2', None], ['ncands', 3]),
     ('corpus:constant', ['D', [['a', ['L', 0]]]], ['none']),
     ('corpus:root-leaf', ['L', 1], ['none']),
 ]
